@@ -29,6 +29,8 @@ inductive Beh
   | raisesEarly        -- raises before writing anything
   | raisesLate         -- writes every product, then raises
   | omits (k : Nat)    -- writes every product except the k-th, returns normally
+  | loadFails          -- a dependency node's `load` raises (`NodeLoadError`): the function is never invoked
+  | saveFails          -- the function runs to completion, then a product node's `save` raises: nothing is stored
 deriving Repr, DecidableEq, Inhabited
 
 structure TaskSpec where
@@ -193,6 +195,16 @@ def updateStates (P : Project) (g : G) (w : World) (t : Nat) : List Nat → Worl
     | none => (w, false)
     | some h => updateStates P g { w with db := insert w.db (tv t, v) h } t vs
 
+/-- `update_states_in_database` as called from the report hooks: returns at once in a dry-run. -/
+def recordStates (P : Project) (g : G) (cfg : Cfg) (w : World) (t : Nat) : World × Bool :=
+  if cfg.dry then (w, true) else updateStates P g w t (neighbours g t)
+
+/-- Does `pytask_execute_task` reach the call of the task function? (`_safe_load` of every
+dependency comes first.) -/
+def behInvokes : Beh → Bool
+  | .loadFails => false
+  | _ => true
+
 /-- Effect of invoking the body. Returns the new file system and whether the call raised. -/
 def runBody (F : BodyFn) (t : TaskSpec) (fs : FS) : FS × Bool :=
   let src := lookup fs t.src
@@ -206,6 +218,8 @@ def runBody (F : BodyFn) (t : TaskSpec) (fs : FS) : FS × Bool :=
   | .raisesEarly => (fs, true)
   | .raisesLate => (writeAll none, true)
   | .omits k => (writeAll (some k), false)
+  | .loadFails => (fs, true)
+  | .saveFails => (fs, true)
 
 inductive Raised
   | none | skippedUnchanged | skipped | ancestorFailed | persisted | wouldBeExecuted | error
@@ -243,41 +257,45 @@ def setupChain (P : Project) (g : G) (cfg : Cfg) (s : Sess) (t : TaskSpec) : Lis
 
 def markAll (marks : List Nat) (xs : List Nat) : List Nat := marks ++ xs
 
-/-- `pytask_execute_task_protocol` + the `process_report` chain for one task. -/
-def protocol (F : BodyFn) (P : Project) (g : G) (cfg : Cfg) (s : Sess) (t : TaskSpec) : Sess :=
-  -- setup
-  let r := setupChain P g cfg s t Generated.setupOrder
-  -- execute + teardown (only when setup raised nothing)
-  let (r, s) :=
-    match r with
-    | .none =>
-      if cfg.dry then (Raised.wouldBeExecuted, s)
-      else
-        let (fs', raised) := runBody F t s.w.fs
-        let s := { s with w := { s.w with fs := fs' }, log := s.log ++ [t.id] }
-        if raised then (Raised.error, s)
-        else if t.prods.any (fun p => (lookup fs' p).isNone) then (Raised.error, s)   -- teardown
-        else (Raised.none, s)
-    | r => (r, s)
-  -- process_report (firstresult chain: skipping, persist, execute)
+/-- `pytask_execute_task_setup`, `pytask_execute_task`, `pytask_execute_task_teardown` for one task: what
+was raised (`.none` = the `else` branch of the protocol's `try`) and the session after the body's effects. -/
+def runPhases (F : BodyFn) (P : Project) (g : G) (cfg : Cfg) (s : Sess) (t : TaskSpec) : Raised × Sess :=
+  match setupChain P g cfg s t Generated.setupOrder with
+  | .none =>
+    if cfg.dry then (.wouldBeExecuted, s)
+    else
+      let (fs', raised) := runBody F t s.w.fs
+      let s' := { s with w := { s.w with fs := fs' }, log := if behInvokes t.beh then s.log ++ [t.id] else s.log }
+      if raised then (.error, s')
+      else if t.prods.any (fun p => (lookup fs' p).isNone) then (.error, s')   -- teardown
+      else (.none, s')
+  | r => (r, s)
+
+/-- The `pytask_execute_task_process_report` chain (firstresult: skipping, persist, execute). -/
+def processReport (P : Project) (g : G) (cfg : Cfg) (s : Sess) (t : TaskSpec) (r : Raised) : Sess :=
   let desc := taskDesc g t.id
   match r with
-  | .skippedUnchanged => { s with reports := s.reports ++ [(t.id, .skipUnchanged)] }
-  | .skipped => { s with reports := s.reports ++ [(t.id, .skip)], skipMarks := markAll s.skipMarks desc }
-  | .ancestorFailed => { s with reports := s.reports ++ [(t.id, .skipPrevFailed)] }
+  | .skippedUnchanged => { s with reports := s.reports ++ [(t.id, Outcome.skipUnchanged)] }
+  | .skipped => { s with reports := s.reports ++ [(t.id, Outcome.skip)], skipMarks := markAll s.skipMarks desc }
+  | .ancestorFailed => { s with reports := s.reports ++ [(t.id, Outcome.skipPrevFailed)] }
   | .persisted =>
-    let (w', ok) := updateStates P g s.w t.id (neighbours g t.id)
-    { s with w := w', reports := s.reports ++ [(t.id, .persistence)], crashed := !ok }
+    let (w', ok) := recordStates P g cfg s.w t.id
+    { s with w := w', reports := s.reports ++ [(t.id, Outcome.persistence)], crashed := !ok }
   | .none =>
-    let (w', ok) := updateStates P g s.w t.id (neighbours g t.id)
-    if ok then { s with w := w', reports := s.reports ++ [(t.id, .success)] }
+    let (w', ok) := recordStates P g cfg s.w t.id
+    if ok then { s with w := w', reports := s.reports ++ [(t.id, Outcome.success)] }
     else { s with w := w', crashed := true }      -- exception escapes the hook: no report is appended
   | .wouldBeExecuted =>
-    { s with reports := s.reports ++ [(t.id, .wouldBeExecuted)], wbeMarks := markAll s.wbeMarks desc }
+    { s with reports := s.reports ++ [(t.id, Outcome.wouldBeExecuted)], wbeMarks := markAll s.wbeMarks desc }
   | .error =>
     let n := s.nFailed + 1
-    { s with reports := s.reports ++ [(t.id, .fail)], failMarks := markAll s.failMarks desc, nFailed := n,
+    { s with reports := s.reports ++ [(t.id, Outcome.fail)], failMarks := markAll s.failMarks desc, nFailed := n,
              stop := s.stop || (match cfg.maxFail with | some m => decide (m ≤ n) | none => false) }
+
+/-- `pytask_execute_task_protocol` for one task. -/
+def protocol (F : BodyFn) (P : Project) (g : G) (cfg : Cfg) (s : Sess) (t : TaskSpec) : Sess :=
+  let rs := runPhases F P g cfg s t
+  processReport P g cfg rs.2 t rs.1
 
 inductive Illegal | notReady (t : Nat) | unknownTask (t : Nat) | leftover
 deriving Repr, DecidableEq
